@@ -49,9 +49,10 @@ VARIABLES prog, fi, ci, ph, reported, diags, memo    \* memo: the allow decision
 vars == <<prog, fi, ci, ph, reported, diags, memo>>
 
 Shapes == {"none", "bare", "name", "path", "lastelem", "other", "two_in", "two_out", "dup"}
-Refs == {"callF", "funcValue", "methCall", "methCallPS", "methCallS2", "chainCall", "aliasPlain", "mapKeyCall", "typeLitPG", "methCallHidden", "typeVarHidden", "methCallVar", "methValue", "methCallPromoted", "methValuePromoted", "typeLit", "typeVar", "typeField", "typeParam", "typeResult",
+Refs == {"callF", "funcValue", "methCall", "methCallPS", "methCallS2", "chainCall", "aliasPlain", "mapKeyCall", "typeLitPG", "methCallHidden", "typeVarHidden", "methCallVar", "methValue", "methCallPromoted", "methValuePromoted", "typeLit", "typeVar", "typeField", "typeEmbed", "typeParam", "typeResult",
          "typeLit2", "plain"}
-TypeRefs == {"typeLit", "typeVar", "typeField", "typeParam", "typeResult", "typeLit2"}
+\* typeEmbed: the type as an embedded field, struct{ d.PT } (the identifier declares the field *and* uses the type)
+TypeRefs == {"typeLit", "typeVar", "typeField", "typeEmbed", "typeParam", "typeResult", "typeLit2"}
 HiddenRefs == {"methCallHidden", "typeVarHidden"}   \* d.Default.HM() on the unexported type hid; d.State, an exported alias of the unexported type state
 Pkgs == {"d", "u", "v"}
 
@@ -63,6 +64,7 @@ PtrSpells == {"ptralias", "ptralias3", "ptrchain", "ptrchain3"}
 AliasSpells == Spells \ {"rename", "paren"}
 SpellsOf(b) == CASE b = "typeLit" -> {"alias", "alias3", "chain", "chain3", "rename"}
                  [] b \in {"typeVar", "typeField", "typeParam", "typeResult"} -> Spells
+                 [] b = "typeEmbed" -> {"alias", "alias3", "chain", "chain3", "rename"}   \* neither ( ) nor an alias of a pointer may be embedded
                  [] OTHER -> {}
 Sp(b, sp) == b \o "@" \o sp
 SpelledRefs == UNION {{Sp(b, sp) : sp \in SpellsOf(b)} : b \in TypeRefs}
@@ -120,7 +122,7 @@ Reported(p, f, i) ==
 L1(p) == {<<k[1], k[2], Cand(p.files[k[1]][k[2]], p.al, p.pkg)>> : k \in {k \in Keys(p) : Reported(p, k[1], k[2])}}
          \cup {<<k[1], k[2], Cand2(p.files[k[1]][k[2]], p.al, p.pkg)>> : k \in {k \in Keys(p) : Cand2(p.files[k[1]][k[2]], p.al, p.pkg) # "none"}}
 
-SeqRefs == {"typeLit", "typeVar", "typeParam", "typeLit2", "callF", "methCall", "methCallPS", "methCallS2", "methCallVar", "typeVarHidden"}
+SeqRefs == {"typeLit", "typeVar", "typeEmbed", "typeParam", "typeLit2", "callF", "methCall", "methCallPS", "methCallS2", "methCallVar", "typeVarHidden"}
 
 InitProg ==
   \/ /\ Mode = "single"
